@@ -191,6 +191,12 @@ impl<'result> CustomTypeParser<'result> {
             .parse_u16()
             .map_err(|err| CustomTypeParseError::IntegerParseError(err.get_cause()))?;
         self.parser = parser;
+        // Both Cassandra and ScyllaDB only allow vectors with a positive number of dimensions.
+        // A zero-dimensional (i.e. zero-sized) element type would let an enclosing vector of
+        // 65535 x 65535 x ... elements be "read" from no input at all.
+        if len == 0 {
+            return Err(CustomTypeParseError::ZeroVectorDimensions);
+        }
         self.accept_in_place(")")
             .map_err(|_| CustomTypeParseError::UnexpectedCharacter(self.get_first_char(), ')'))?;
         Ok((typ, len))
